@@ -1274,6 +1274,10 @@ class Store:
         target = target_node.add_node(source_path, source_node)
         # add_node returns the parent the node was attached to
         target_path = target.path_for() + source_path[-1:]
+        # the newcomer gets what the target store declares for its
+        # children, as a child that enters by _add or _generate does
+        target._apply_subschema_path(source_path[-1:])
+        target.get_path(source_path[-1:]).apply_defaults()
 
         # find the paths to all the processes
         source_process_paths = source_node.depth(
